@@ -1,23 +1,24 @@
 SPECIFICATION Spec
 CONSTANTS MaxLinks = 2
- Shapes = {2,3}
+ Shapes = {1,3}
  PPPs = {2,9}
- S0s = {1,2}
+ S0s = {1}
  ETs = {0,1}
  Muxes = {0}
- BIdx = {1,2}
+ BIdx = {3}
  DiscardVi = "link"
  Streaming = FALSE
  PinSer = FALSE
  PLen = 2
  ReadLens = {100}
- MaxCalls = 2
- Ops = {"read","pcm","raw","page"}
+ MaxCalls = 3
+ Ops = {"read","pcm","half"}
 INVARIANT NoLoopBoundHit
 INVARIANT OpenOK
 INVARIANT PositionTruth
-INVARIANT ReadContinues
+INVARIANT PositionTruthHalf
 INVARIANT ReadOutcome
 INVARIANT InOrder
 INVARIANT SeekOutcome
+INVARIANT HalfOutcome
 CHECK_DEADLOCK FALSE
